@@ -36,8 +36,14 @@ Definition new_cc := {| authed := false; ccid := 0; pending := None |}.
 (* a session connection (types.Connection): its stream is open or closed, its peer address, and the
    ControlConnection registered for it in ClientRegistry.connMap (if any) *)
 Record conn := { c_open : bool; c_addr : N; c_cc : option cc }.
-(* models.ClientConfig: the stored secret (SecretKeyEncrypted, by number) and IsExpired() *)
-Record client := { secret : N; expired : bool }.
+(* models.ClientConfig.SecretKeyEncrypted: what the server can recover from the stored credential.
+     CKey n   it decrypts under the master key to secret number n
+     CEmpty   the field is "" (legacy record that was never migrated)
+     CBroken  non-empty but unusable: not base64, too short, not decryptable, sealed under another master key *)
+Inductive cred := CKey (n : N) | CEmpty | CBroken.
+Definition secret_of (c : cred) : option N := match c with CKey n => Some n | _ => None end.
+(* models.ClientConfig: the stored credential and IsExpired() *)
+Record client := { stored : cred; expired : bool }.
 
 Record srv := {
   clients : N -> option client;     (* CloudControl.GetClientConfig *)
@@ -80,7 +86,7 @@ Definition bump_nonce (s : srv) := {| clients := clients s; next_id := next_id s
   conns := conns s; index := index s |}.
 (* GenerateAnonymousCredentials: a new id with a new secret, not expired (ExpiresAt = now + 30 days) *)
 Definition register (s : srv) := {|
-  clients := upd (clients s) (next_id s) (Some {| secret := next_secret s; expired := false |});
+  clients := upd (clients s) (next_id s) (Some {| stored := CKey (next_secret s); expired := false |});
   next_id := next_id s + 1; next_secret := next_secret s + 1;
   next_nonce := next_nonce s; banned := banned s; black := black s; fails := fails s; rl_deny := rl_deny s;
   conns := conns s; index := index s |}.
@@ -88,7 +94,7 @@ Definition register (s : srv) := {|
 Definition rekey (s : srv) (x : N) := match clients s x with
   | None => s
   | Some cl => {|
-      clients := upd (clients s) x (Some {| secret := next_secret s; expired := expired cl |});
+      clients := upd (clients s) x (Some {| stored := CKey (next_secret s); expired := expired cl |});
       next_id := next_id s; next_secret := next_secret s + 1;
       next_nonce := next_nonce s; banned := banned s; black := black s; fails := fails s; rl_deny := rl_deny s;
       conns := conns s; index := index s |}
@@ -140,14 +146,19 @@ Definition auth (keep : bool) (s : srv) (c : cc) (a : N) (m : hs) : srv * cc * a
     if expired cl then (s, c, AFail) else                                (* credentials expired *)
     match h_resp m with
     | None =>                                                            (* 5.1 handleChallengePhase1 *)
-      let n := next_nonce s in
-      (bump_nonce s, {| authed := authed c; ccid := ccid c; pending := Some n |}, AChallenge n)
+      match stored cl with
+      | CEmpty => (s, c, AFail)                                          (* SecretKeyEncrypted == "": not configured *)
+      | _ =>
+        let n := next_nonce s in
+        (bump_nonce s, {| authed := authed c; ccid := ccid c; pending := Some n |}, AChallenge n)
+      end
     | Some r =>                                                          (* 5.2 handleChallengePhase2 *)
       match pending c with
       | None => (record_failure s a, c, AFail)                           (* no pending challenge *)
       | Some ch =>
-        (* ClearPendingChallenge happens before VerifyResponse *)
-        if r =? hmac (secret cl) ch
+        (* ClearPendingChallenge happens before VerifyResponse; VerifyResponse is false whenever the stored
+           credential does not decrypt, whatever the response is *)
+        if match secret_of (stored cl) with Some sec => r =? hmac sec ch | None => false end
         then (clear_fails s a, {| authed := true; ccid := h_cid m; pending := None |}, ASuccess)
         else (record_failure s a, {| authed := authed c; ccid := ccid c; pending := None |}, AFail)
       end
@@ -214,6 +225,7 @@ Inductive ev :=
 | EMsg (k : N) (m : option hs)
 | EBan (a : N) | EUnban (a : N) | EBlack (a : N) | EUnblack (a : N)
 | EExpire (x : N) | EDelete (x : N) | EDelAnon (x : N) | ERekey (x : N) | ERegister
+| ECorrupt (x : N) (empty : bool)        (* the stored credential of x becomes "" / an undecryptable string *)
 | ERate (deny : bool)
 | EClose (k : N) | EOpen (k a : N).
 
@@ -231,8 +243,11 @@ Definition step (v : variant) (s : srv) (e : ev) : srv * out :=
   | EBlack a => (set_black s (upd (black s) a true), no_out)
   | EUnblack a => (set_black s (upd (black s) a false), no_out)
   | EExpire x => (match clients s x with
-                  | Some cl => set_clients s (upd (clients s) x (Some {| secret := secret cl; expired := true |}))
+                  | Some cl => set_clients s (upd (clients s) x (Some {| stored := stored cl; expired := true |}))
                   | None => s end, no_out)
+  | ECorrupt x e => (match clients s x with
+                     | Some cl => set_clients s (upd (clients s) x (Some {| stored := if e then CEmpty else CBroken; expired := expired cl |}))
+                     | None => s end, no_out)
   | EDelete x => (set_clients s (upd (clients s) x None), no_out)
   | EDelAnon x => (if v_anon_delete v then set_clients s (upd (clients s) x None) else s, no_out)
   | ERekey x => (rekey s x, no_out)
